@@ -13,6 +13,9 @@ ATOM_MAKERS = [
     lambda r: r.choice([True, False]),
     lambda r: r.choice([b"", b"ab"]),
 ]
+# instances of builtin / stdlib classes that are NOT the five containers the inference looks into: plain classes to it
+EXOTIC = [lambda: frozenset({1, 2}), lambda: frozenset(), lambda: collections.OrderedDict(a=1), lambda: collections.deque([1, "s"]),
+          lambda: range(3), lambda: complex(1, 2), lambda: bytearray(b"x"), lambda: collections.Counter("ab")]
 SIMPLE_CLASSES = [fx.A, fx.B, fx.C, fx.D, fx.E, fx.F, fx.X, fx.Y, fx.XY1, fx.YX1, fx.Outer, fx.Outer.Inner, fx.Falsy, fx.WithCall]
 CLASS_OBJS = [int, str, fx.A, fx.B, fx.D, fx.MyList, type(None), fx.Outer.Inner, fx.Falsy]
 CALLABLES = [fx.some_function, len, (lambda: 0), [].append, fx.A().__init__]
@@ -28,6 +31,8 @@ class ValGen:
     def atom(self):
         r = self.r
         c = r.random()
+        if c < 0.05:
+            return r.choice(EXOTIC)()
         if c < 0.55:
             return r.choice(ATOM_MAKERS)(r)
         if c < 0.75:
